@@ -335,6 +335,37 @@ func run(c Case) ([]vk.Violation, vk.Info) {
 		bad("map_key_identity", "map lookup by Equivalent() = %v; bit-equal %v go-equal %v", hit, be, ge)
 	}
 
+	// --- every way of obtaining an empty set is the same set ---
+	{
+		var zero attribute.Set
+		denyAll := attribute.NewAllowKeysFilter()
+		viaFilter, _ := s.Filter(denyAll)
+		viaCtor, _ := attribute.NewSetWithFiltered(append([]attribute.KeyValue{}, input...), denyAll)
+		ctor := attribute.NewSet()
+		empties := []*attribute.Set{&zero, new(attribute.Set), &ctor, attribute.EmptySet(), nil, &viaFilter, &viaCtor}
+		names := []string{"zero value", "new(Set)", "NewSet()", "EmptySet()", "nil *Set", "Filter(deny all)", "NewSetWithFiltered(deny all)"}
+		keyed := map[attribute.Distinct]string{}
+		for i, e := range empties {
+			if e.Len() != 0 || len(e.ToSlice()) != 0 {
+				bad("empty_not_empty", "%s has Len %d", names[i], e.Len())
+			}
+			for j, o := range empties {
+				if !e.Equals(o) || e.Equivalent() != o.Equivalent() {
+					bad("empty_sets_differ", "the empty sets obtained as %s and as %s are not Equal / have different Equivalent()", names[i], names[j])
+				}
+			}
+			if prev, ok := keyed[e.Equivalent()]; !ok && len(keyed) > 0 {
+				bad("empty_sets_differ", "the empty set obtained as %s has another Equivalent() map key than the others", names[i])
+			} else if !ok {
+				keyed[e.Equivalent()] = names[i]
+				_ = prev
+			}
+			if eq := e.Equals(&s); eq != (len(m.keys) == 0) || eq != s.Equals(e) {
+				bad("empty_vs_set", "%s Equals the set under test = %v, but the set has %d keys", names[i], eq, len(m.keys))
+			}
+		}
+	}
+
 	// --- filtering ---
 	f, keep := mkFilter(c)
 	var wantKept, wantDropped []string
